@@ -241,8 +241,9 @@ Close ==
                     THEN (IF par.move THEN <<S("move", "a", "")>> ELSE <<>>) \o <<S("newfile", "meta", "")>>
                     ELSE <<>>)
                    \o <<S("append", "resource", "none")>>
-                   \o (IF par.move THEN <<S("move", "a", "")>> ELSE <<>>)
               ELSE <<>>)
+             \* the last archive is moved with or without a log record in it (was: only after the log record)
+             \o (IF par.move THEN <<S("move", "a", "")>> ELSE <<>>)
              \o (IF par.cdx /\ par.move THEN <<S("move", "c", "")>> ELSE <<>>)
              \o <<S("closed", "", "")>>
   /\ UNCHANGED <<par, fix, fsvars, pc, recvars, rec, ap, nextRid, budvars, obsvars>>
